@@ -361,15 +361,19 @@ func guardText(e errorExit) string {
 	// or slices.Contains(seen, key) — states the same fact as `_, ok := set[key]; ok`
 	for _, a := range e.guards {
 		call, ok := ast.Unparen(a.E).(*ast.CallExpr)
-		if !ok || !a.Truth || a.Tag != nil || len(call.Args) != 2 {
+		if !ok || a.Tag != nil || len(call.Args) != 2 {
 			continue
+		}
+		flag := "flag"
+		if !a.Truth {
+			flag = "!(flag)"
 		}
 		sel, isSel := call.Fun.(*ast.SelectorExpr)
 		if !isSel || (sel.Sel.Name != "ContainsFunc" && sel.Sel.Name != "Contains") || exprStr(sel.X) != "slices" {
 			continue
 		}
 		if sel.Sel.Name == "Contains" {
-			parts = append(parts, "init:set["+str(call.Args[1])+"]", "flag")
+			parts = append(parts, "init:set["+str(call.Args[1])+"]", flag)
 			continue
 		}
 		if lit, isLit := call.Args[1].(*ast.FuncLit); isLit && len(lit.Body.List) == 1 && len(lit.Type.Params.List) == 1 && len(lit.Type.Params.List[0].Names) == 1 {
@@ -390,7 +394,7 @@ func guardText(e errorExit) string {
 					if mentionsParam(be.Y) && !mentionsParam(be.X) {
 						key = be.X
 					}
-					parts = append(parts, "init:set["+str(key)+"]", "flag")
+					parts = append(parts, "init:set["+str(key)+"]", flag)
 				}
 			}
 		}
